@@ -32,7 +32,7 @@ def budget(tier):
 def gen(rng, idx, tier):
     return {"ts": rng.choice(TS), "dseed": rng.randrange(10 ** 6), "n_elems": rng.randrange(0, 9),
             "op": rng.choice(["store", "store", "store", "find", "n_set", "n_create", "n_action", "n_event_report"]),
-            "scu_max": rng.choice([0, 16, 128, 16382]), "scp_max": rng.choice([0, 16, 128, 16382]),
+            "scu_max": rng.choice([0, 16, 17, 128, 135, 257, 16382, 16383]), "scp_max": rng.choice([0, 16, 17, 128, 135, 257, 16382, 16383]),
             "chunked_send": rng.randrange(4) == 0, "chunked_recv": rng.randrange(3) == 0,
             # chunked send only: the file is encoded in this syntax (None = the accepted one); a file's bytes are sent
             # as they are, so a file in another syntax than the accepted one must be refused, not sent
